@@ -437,6 +437,15 @@ Arguments FillSparse {V}.
 Arguments FillDense {V}.
 Arguments FillError {V}.
 
+(* ------------------------------------------------------------------ SparseArray.astype: which OBJECT comes back
+   `if <generated condition>: return self`, otherwise the (new) result of the element-wise core.
+   Objects are named by identifiers; [fresh] is the identifier of the newly built result. *)
+Definition astype_returns_self (same_dtype copy : bool) : bool :=
+  match g_astype_returns_self (VBool same_dtype) (VBool copy) with Ok v => truthy v | Raise _ => false end.
+
+Definition astype_object (self fresh : nat) (same_dtype copy : bool) : nat :=
+  if astype_returns_self same_dtype copy then self else fresh.
+
 (* ------------------------------------------------------------------ output format (_Elemwise.__init__) *)
 Inductive fmt := FCoo | FGcxs (caxes : list Z) | FDok | FScipy | FOther.
 Inductive ofmt := OutCoo | OutGcxs (caxes : option (list Z)) | OutDok.
